@@ -108,11 +108,31 @@ def battery(tables, cfg, want, argsets):
         s for c in caught if issubclass(c.category, wn.WnWarning)
         for s in str(c.message).split(': ', 1)[-1].split()))
     if st != 'ok':
-        o.update({'lexicons': [], 'expanded': [], 'W': [], 'S': [], 'Y': [],
+        o.update({'lexicons': [], 'expanded': [], 'W': [], 'S': [], 'Y': [], 'desc': [], 'A': [], 'ident': [],
                   'words': [], 'senses': [], 'synsets': []})
         return o
     o['lexicons'] = [lx.specifier() for lx in w.lexicons()]
     o['expanded'] = [lx.specifier() for lx in w.expanded_lexicons()]
+    # Lexicon.describe(): the counts it prints
+    import re as _re
+    o['desc'] = []
+    for lx in w.lexicons():
+        st, txt = call(lx.describe)
+        row = [lx.specifier(), st]
+        if st == 'ok':
+            def counts(label):
+                m = _re.search(r'^\s*%s\s*:\s*(\d+)(?: \((.*)\))?\s*$' % label, txt, _re.M)
+                if not m:
+                    return [-1, []]
+                by = []
+                if m.group(2):
+                    by = [[p.split(':')[0].strip(), int(p.split(':')[1])] for p in m.group(2).split(',') if ':' in p]
+                return [int(m.group(1)), by]
+            row += [counts('Words'), counts('Senses')[0], counts('Synsets'), counts('ILIs')[0],
+                    txt.splitlines()[0]]
+        else:
+            row += [[-1, []], -1, [-1, []], -1, '~']
+        o['desc'].append(row)
     words, senses, synsets = w.words(), w.senses(), w.synsets()
     o['words'] = [name(x) for x in words]
     o['senses'] = [name(x) for x in senses]
